@@ -1736,6 +1736,26 @@ pub fn gen_module(rng: &mut Rng, cfg: &GenCfg) -> Generated {
         simple!(n_data, data, 8);
         module.section(&names);
         custom(&mut module, rng);
+        // a second name section now and then (valid; walrus applies every one of them, in order):
+        // names for entities the first one left unnamed
+        if only.is_none() && rng.chance(1, 8) {
+            let mut more = NameSection::new();
+            let mut gm = NameMap::new();
+            for i in 0..ctx.globals.len() as u32 {
+                gm.append(i, &format!("second_g{}", i));
+            }
+            if !ctx.globals.is_empty() {
+                more.globals(&gm);
+            }
+            let mut mm = NameMap::new();
+            for i in 0..ctx.mems.len() as u32 {
+                mm.append(i, &format!("second_m{}", i));
+            }
+            if !ctx.mems.is_empty() {
+                more.memories(&mm);
+            }
+            module.section(&more);
+        }
         }
     }
     if cfg.producers && rng.chance(1, 2) {
